@@ -44,8 +44,13 @@ def ws_run(k, r=0):
     return (WS5 * (k // 5 + 2))[r:r + k]
 
 
+# the ladder of the brief jumps from 1025 to 4095 and from 4097 to 65533: the powers of two in between, for offsets and lengths
+POW2 = [511, 512, 513, 2047, 2048, 2049, 8191, 8192, 8193, 16383, 16384, 16385, 32767, 32768, 32769]
+PLADDER = sorted(LADDER + POW2)
+
+
 def lengths(ctx):
-    return LADDER + [65537, 65544] + ctx.scale([], [131071, 131072, 131073, 1 << 20, (1 << 20) + 1])
+    return sorted(LADDER + [511, 512, 513, 2047, 2048, 2049, 8192, 16384, 32768, 65537, 65544]) + ctx.scale([], [131071, 131072, 131073, 1 << 20, (1 << 20) + 1])
 
 
 def put(base, p, f):
@@ -60,7 +65,7 @@ FEATS = [b"\\", b"\xff", b"\x80", b"\xc3", b"\xc3\xa5", b"\xe2\x82\xac", b"\xf0\
 
 def positions(L):
     P = {L // 2}
-    for p in LADDER:
+    for p in PLADDER:
         if p < L:
             P.add(p)
             P.add(L - 1 - p)
@@ -78,10 +83,10 @@ def len_strings(ctx):
         out.append(base + b" \t\r\n")
         pos = positions(L)
         if L > 5000:                                # 64 KiB: a thinner set of positions, two features per position in rotation
-            keep = {0, 7, 8, 63, 64, 127, 128, 255, 256, 1023, 1024, 4095, 4096, 32767, 32768, L // 2}
+            keep = {0, 7, 8, 63, 64, 127, 128, 255, 256, 1023, 1024, 2047, 2048, 4095, 4096, 4097, 8191, 8192, 16383, 16384, 32767, 32768, L // 2}
             keep |= {L - 1 - p for p in (0, 1, 7, 8, 63, 64, 127, 128, 255, 256, 4095, 4096)}
             keep |= {(L // b) * b - d for b in (8, 64, 128) for d in (0, 1)}
-            if L in (65533, 65534, 65544):
+            if L in (8192, 16384, 32768, 65533, 65534, 65544):
                 keep = {0, 64, 4096, L // 2, L - 1, L - 2, L - 9, L - 65, (L // 8) * 8 - 1, (L // 8) * 8, (L // 64) * 64 - 1, (L // 64) * 64}
             pos = [p for p in pos if p in keep]
         for i, p in enumerate(pos):
